@@ -5,8 +5,10 @@
 package vos
 
 import (
+	"io"
 	"io/fs"
 	"os"
+	"time"
 	"path/filepath"
 	"sort"
 	"syscall"
@@ -15,7 +17,6 @@ import (
 )
 
 type (
-	File      = os.File
 	FileMode  = os.FileMode
 	FileInfo  = os.FileInfo
 	PathError = os.PathError
@@ -105,12 +106,242 @@ func Names() []string {
 	return n
 }
 
-func Create(name string) (*os.File, error)                      { return os.Create(name) }
-func Open(name string) (*os.File, error)                        { return os.Open(name) }
-func OpenFile(n string, f int, p os.FileMode) (*os.File, error) { return os.OpenFile(n, f, p) }
-func Remove(name string) error                                  { return os.Remove(name) }
+// File is an open handle on the file table with the semantics of *os.File that matter for a writer of CDR files:
+// O_CREATE / O_EXCL / O_TRUNC / O_APPEND are honoured, writes land at the handle's offset and leave everything beyond
+// what they cover untouched (a rewrite without truncation keeps the old tail), reads see the current content.
+// Every operation is a gate; a handle that wrote something is reported to Hook (and counted as one write of the
+// path) when it is closed.
+type File struct {
+	name   string
+	off    int64
+	flag   int
+	dirty  bool
+	closed bool
+	real   *os.File
+}
+
+func Create(name string) (*File, error) { return OpenFile(name, os.O_RDWR|os.O_CREATE|os.O_TRUNC, 0o666) }
+func Open(name string) (*File, error)   { return OpenFile(name, os.O_RDONLY, 0) }
+
+func OpenFile(name string, flag int, perm os.FileMode) (f *File, err error) {
+	if Real {
+		rf, e := os.OpenFile(name, flag, perm)
+		if e != nil {
+			return nil, e
+		}
+		return &File{name: name, real: rf}, nil
+	}
+	fsMon.Do("fs.Open", name, nil, func() {
+		if err = dirOK(name); err != nil {
+			return
+		}
+		_, exists := Files[name]
+		switch {
+		case !exists && flag&os.O_CREATE == 0:
+			err = &os.PathError{Op: "open", Path: name, Err: syscall.ENOENT}
+			return
+		case exists && flag&os.O_CREATE != 0 && flag&os.O_EXCL != 0:
+			err = &os.PathError{Op: "open", Path: name, Err: syscall.EEXIST}
+			return
+		}
+		f = &File{name: name, flag: flag}
+		if !exists {
+			Files[name] = []byte{}
+			f.dirty = true
+		}
+		if flag&os.O_TRUNC != 0 && flag&(os.O_WRONLY|os.O_RDWR) != 0 {
+			Files[name] = []byte{}
+			f.dirty = true
+		}
+	})
+	return
+}
+
+func (f *File) Name() string { return f.name }
+
+func (f *File) writable() bool { return f.flag&(os.O_WRONLY|os.O_RDWR) != 0 }
+
+func (f *File) writeAt(b []byte, off int64) {
+	cur := Files[f.name]
+	if need := int(off) + len(b); need > len(cur) {
+		cur = append(cur, make([]byte, need-len(cur))...)
+	}
+	copy(cur[off:], b)
+	Files[f.name] = cur
+	f.dirty = true
+}
+
+func (f *File) Write(b []byte) (n int, err error) {
+	if f.real != nil {
+		return f.real.Write(b)
+	}
+	fsMon.Do("fs.Write", f.name, nil, func() {
+		if f.closed || !f.writable() {
+			err = &os.PathError{Op: "write", Path: f.name, Err: syscall.EBADF}
+			return
+		}
+		if f.flag&os.O_APPEND != 0 {
+			f.off = int64(len(Files[f.name]))
+		}
+		f.writeAt(b, f.off)
+		f.off += int64(len(b))
+		n = len(b)
+	})
+	return
+}
+
+func (f *File) WriteString(s string) (int, error) { return f.Write([]byte(s)) }
+
+func (f *File) WriteAt(b []byte, off int64) (n int, err error) {
+	if f.real != nil {
+		return f.real.WriteAt(b, off)
+	}
+	fsMon.Do("fs.Write", f.name, nil, func() {
+		if f.closed || !f.writable() {
+			err = &os.PathError{Op: "write", Path: f.name, Err: syscall.EBADF}
+			return
+		}
+		f.writeAt(b, off)
+		n = len(b)
+	})
+	return
+}
+
+func (f *File) Read(b []byte) (n int, err error) {
+	if f.real != nil {
+		return f.real.Read(b)
+	}
+	fsMon.Do("fs.Read", f.name, nil, func() {
+		cur := Files[f.name]
+		if f.closed || f.flag&os.O_WRONLY != 0 {
+			err = &os.PathError{Op: "read", Path: f.name, Err: syscall.EBADF}
+			return
+		}
+		if f.off >= int64(len(cur)) {
+			err = io.EOF
+			return
+		}
+		n = copy(b, cur[f.off:])
+		f.off += int64(n)
+	})
+	return
+}
+
+func (f *File) ReadAt(b []byte, off int64) (n int, err error) {
+	if f.real != nil {
+		return f.real.ReadAt(b, off)
+	}
+	fsMon.Do("fs.Read", f.name, nil, func() {
+		cur := Files[f.name]
+		if off >= int64(len(cur)) {
+			err = io.EOF
+			return
+		}
+		if n = copy(b, cur[off:]); n < len(b) {
+			err = io.EOF
+		}
+	})
+	return
+}
+
+func (f *File) Seek(offset int64, whence int) (int64, error) {
+	if f.real != nil {
+		return f.real.Seek(offset, whence)
+	}
+	switch whence {
+	case io.SeekStart:
+		f.off = offset
+	case io.SeekCurrent:
+		f.off += offset
+	case io.SeekEnd:
+		f.off = int64(len(Files[f.name])) + offset
+	}
+	if f.off < 0 {
+		f.off = 0
+		return 0, &os.PathError{Op: "seek", Path: f.name, Err: syscall.EINVAL}
+	}
+	return f.off, nil
+}
+
+func (f *File) Truncate(size int64) (err error) {
+	if f.real != nil {
+		return f.real.Truncate(size)
+	}
+	fsMon.Do("fs.Write", f.name, nil, func() {
+		cur := Files[f.name]
+		if int(size) <= len(cur) {
+			Files[f.name] = cur[:size]
+		} else {
+			Files[f.name] = append(cur, make([]byte, int(size)-len(cur))...)
+		}
+		f.dirty = true
+	})
+	return
+}
+
+func (f *File) Sync() error {
+	if f.real != nil {
+		return f.real.Sync()
+	}
+	return nil
+}
+
+func (f *File) Chmod(os.FileMode) error { return nil }
+
+type fileInfo struct {
+	name string
+	size int64
+}
+
+func (i fileInfo) Name() string       { return filepath.Base(i.name) }
+func (i fileInfo) Size() int64        { return i.size }
+func (i fileInfo) Mode() os.FileMode  { return 0o666 }
+func (i fileInfo) ModTime() time.Time { return time.Time{} }
+func (i fileInfo) IsDir() bool        { return false }
+func (i fileInfo) Sys() any           { return nil }
+
+func (f *File) Stat() (os.FileInfo, error) {
+	if f.real != nil {
+		return f.real.Stat()
+	}
+	return fileInfo{f.name, int64(len(Files[f.name]))}, nil
+}
+
+func (f *File) Close() (err error) {
+	if f.real != nil {
+		return f.real.Close()
+	}
+	fsMon.Do("fs.Close", f.name, nil, func() {
+		if f.closed {
+			err = &os.PathError{Op: "close", Path: f.name, Err: os.ErrClosed}
+			return
+		}
+		f.closed = true
+		if f.dirty {
+			Writes[f.name]++
+			Log = append(Log, f.name)
+			if Hook != nil {
+				Hook(f.name, append([]byte(nil), Files[f.name]...))
+			}
+		}
+	})
+	return
+}
+
+func Remove(name string) error {
+	if _, ok := Files[name]; ok && !Real {
+		delete(Files, name)
+		return nil
+	}
+	return os.Remove(name)
+}
 func RemoveAll(name string) error                               { return os.RemoveAll(name) }
-func Stat(name string) (os.FileInfo, error)                     { return os.Stat(name) }
+func Stat(name string) (os.FileInfo, error) {
+	if b, ok := Files[name]; ok && !Real {
+		return fileInfo{name, int64(len(b))}, nil
+	}
+	return os.Stat(name)
+}
 func MkdirAll(p string, m os.FileMode) error                    { return os.MkdirAll(p, m) }
 func Mkdir(p string, m os.FileMode) error                       { return os.Mkdir(p, m) }
 func Getenv(k string) string                                    { return os.Getenv(k) }
